@@ -227,6 +227,9 @@ template<class T> void drive_type(Rng& rng) {
     if (W == 8 && g_thorough) { for (uint64_t m = 1; m <= (std::numeric_limits<T>::is_signed ? 127u : 255u); ++m) ms.push_back(m); }
     else { for (uint64_t m : { 1ull, 2ull, 3ull, 4ull, 7ull, 10ull, 16ull, 100ull, 127ull }) if (g_thorough || m != 4) ms.push_back(m);
            if (W > 8) { ms.push_back(255); ms.push_back(1000); ms.push_back(4096); ms.push_back(smax / 3); } }
+    // multipliers in the upper half of the range: remainders >= 2^(W-1) (sums such as Remainder + Remainder wrap there)
+    if (!(W == 8 && g_thorough)) { if (std::numeric_limits<T>::is_signed) { ms.push_back(smax - 1); ms.push_back((smax >> 1) + 2); }
+                                   else { ms.push_back((1ull << (W - 1)) + 1); ms.push_back(3ull << (W - 2)); ms.push_back((W == 64 ? ~0ull : ((1ull << W) - 1)) - 2); } }
     std::vector<uint64_t> xs = v;
     if (W > 8 && !g_thorough && xs.size() > 110) { std::vector<uint64_t> t; for (size_t i = 0; i < xs.size(); i += xs.size() / 110 + 1) t.push_back(xs[i]); for (uint64_t k = 0; k < 40; ++k) { t.push_back(k); t.push_back(0 - k); } xs = t; }
     size_t k = 0;
